@@ -861,9 +861,12 @@ pub fn c10builtins(repo: &Path) -> Result<String, String> {
                     other => return Err(format!("StringLines::slice: loop over `{}`", norm(other))),
                 };
                 let body: Vec<String> = fl.body.stmts.iter().map(|s| norm(s)).collect();
-                let iter_name = body.first().and_then(|s| s.strip_prefix("letidx=")).and_then(|s| s.strip_suffix(".next()?;")).unwrap_or("").to_string();
-                let ok = !cur.is_empty() && norm(&fl.pat) == "_" && body.len() == 2 && !iter_name.is_empty()
-                    && iter_name.chars().all(|c| c.is_alphanumeric() || c == '_') && body[1] == format!("{cur}=idx;");
+                // `let V = IT.next()?; CUR = V;` (any names)
+                let (var, iter_name) = body.first().and_then(|s| s.strip_prefix("let")).and_then(|s| s.strip_suffix(".next()?;"))
+                    .and_then(|s| s.split_once('=')).map(|(v, it)| (v.to_string(), it.to_string())).unwrap_or_default();
+                let is_ident = |x: &str| !x.is_empty() && x.chars().all(|c| c.is_alphanumeric() || c == '_');
+                let ok = !cur.is_empty() && norm(&fl.pat) == "_" && body.len() == 2 && is_ident(&var) && is_ident(&iter_name)
+                    && body[1] == format!("{cur}={var};");
                 if !ok {
                     return Err(format!("StringLines::slice: loop not of the skip/take shape: let mut {cur} = {init}; for {} in {a}..{b} {{ {} }}", norm(&fl.pat), body.join(" ")));
                 }
